@@ -165,6 +165,30 @@ pub fn run(ctx: &mut Ctx) {
         if !ctx.thorough && (p as usize + (s as i32 + 128) as usize + t.len()) % 3 != 0 { continue; }
         case_parse(ctx, p, s, t, "grid");
     } } }
+    // mantissas at the boundaries of the machine integer widths and of the digit counts (2^31, 2^32, 2^63, 2^64, 2^127, 10^k - 1, 10^k
+    // for k = 9, 10, 18, 19, 20, 37, 38), each +-1, in every precision that can hold them and one that cannot, with the point in
+    // several places and with either sign: an implementation may parse through a narrower integer type on some path
+    {
+        let two = |e: u32| bigdecimal::num_bigint::BigInt::from(2).pow(e);
+        let mut anchors: Vec<bigdecimal::num_bigint::BigInt> = vec![two(31), two(32), two(63), two(64), two(127)];
+        for k in [9u32, 10, 18, 19, 20, 37, 38] { anchors.push(pow10(k)); }
+        let mut mantissas: Vec<String> = vec![];
+        for a in &anchors { for d in [-1i32, 0, 1] { let v = a + d; if v > bigdecimal::num_bigint::BigInt::from(0) { mantissas.push(v.to_string()); } } }
+        for m in &mantissas {
+            let nd = m.len();
+            for p in [nd.saturating_sub(1).max(1), nd, (nd + 1).min(38), 38] {
+                if p > 38 { continue; }
+                for sc in [0usize, 1, nd / 2, nd.saturating_sub(1)] {
+                    if sc >= nd && sc != 0 { continue; }
+                    let text = if sc == 0 { m.clone() } else { format!("{}.{}", &m[..nd - sc], &m[nd - sc..]) };
+                    for sign in ["", "-"] {
+                        if !ctx.thorough && (p + sc + sign.len()) % 2 == 1 { continue; }
+                        case_parse(ctx, p as u8, sc as i8, &format!("{}{}", sign, text), "width_boundary");
+                    }
+                }
+            }
+        }
+    }
     // parameter corners
     for &p in &P_POOL { for &s in &S_POOL { for t in ["1", "-0.5", "", "12345678901234567890123456789012345678901234567890123456789012345678901234567890", "0.00000000000000000000000000000000000000000000000000000000000000000000001"] { case_parse(ctx, p, s, t, "corner"); } } }
     // formatting: extremes at every scale
